@@ -17,7 +17,7 @@ HANDWRITTEN_DEPTH = 3      # hand-written permutations for every content reachab
 
 
 def lang_spec(name):
-    if name in ('CLSsamepair', 'CLSnoassoc', 'CLSswapfields', 'CLSunderscore'):
+    if name in ('CLSsamepair', 'CLSnoassoc', 'CLSswapfields', 'CLSunderscore', 'CLSjoined'):
         return families.cls_langs()[name[3:]]
     if name == 'CLSopp':
         return families.cls_langs()['opposite']
@@ -76,6 +76,12 @@ def extra_plain_models():
                                              ('Conn_Net_Zone_Host', 'zones', ['nz'], 'members', ['h'])])))
     out.append(('CLSunderscore', PlainModel([('n', 'Net'), ('zh', 'Zone_Host')],
                                             [('Conn_Net_Zone_Host_zones_members', 'zones', ['n'], 'members', ['zh'])])))
+    out.append(('CLSjoined', PlainModel([('wa', 'Web_App'), ('d', 'Data'), ('w', 'Web'), ('ad', 'App_Data'), ('h', 'Host'), ('a1', 'App'), ('a2', 'App')],
+                                        [('?Link', 'apps', ['wa'], 'stores', ['d']),
+                                         ('?Link', 'fronts', ['w'], 'backing', ['ad']),
+                                         ('?Link', 'fronts', ['wa'], 'backing', ['d']),
+                                         ('?Link', 'hosts', ['h'], 'apps', ['a1', 'a2']),
+                                         ('Link_Host_App', 'peerOf', ['a1'], 'peer', ['a2'])])))
     out.append(('CLSnoassoc', PlainModel([('a1', 'Aa'), ('b1', 'Bb'), ('a2', 'Aa')], [])))
     out.append(('OPS2', PlainModel([('c1', 'Crate'), ('c2', 'Crate'), ('i1', 'Item'), ('i2', 'Item')],
                                    [('Part', 'whole', ['c1'], 'parts', ['c2', 'i1']), ('Contain', 'container', ['c2'], 'inside', ['i1', 'i2']),
